@@ -96,6 +96,19 @@ def work_of_one_call(ctx, quick):
         if 2 * worst != 4 * R - 2:
             ctx.drift(f"work of the first counted call at resolution {R}: model creates {4 * R - 2} nodes, the real object "
                       f"splits {worst} times")
+    if not quick:
+        # the action-property form over EVERY reachable state of a catalogue instance (not only the first counted call):
+        # within the instance's bounds a call creates at most 6 nodes (cap 4 is violated)
+        cfgA = BR.catalogue(ctx.tier)["A"]
+        got = {}
+        for cap in (4, 6):
+            res = tlc.run("BrownianWork", timeout=900, workers=8, cfg_text=(
+                "SPECIFICATION Spec\n" + cfgA.constants_cfg() + f"CONSTANT WorkCap = {cap}\nPROPERTY CallWork\n"
+                "CONSTRAINT Bounded\nVIEW View\nCHECK_DEADLOCK FALSE\n"))
+            ctx.add_tlc(res, f"BrownianWork on catalogue A: CallWork with WorkCap={cap}")
+            got[cap] = res.violated
+        if got[4] != "CallWork" or got[6] is not None:
+            ctx.drift(f"BrownianWork on catalogue A: expected the per-call maximum of 6 nodes, TLC says {got}")
     # histories: (trigger, kwargs).  "short_query_after_warmup" is K9; in every other history one call needs a handful
     # of splits on the unchanged code
     tiny = 2.0 ** -30
